@@ -74,20 +74,17 @@ Proof.
       apply in_declared in X. tauto.
     - intros Hi. assert (X : In RDF (declared (entries xm))) by (apply in_declared; auto).
       apply C2 in X as [_ X]. unfold PkgOKstep.files in X. cbn in X. destruct (dB fs d RDF); [discriminate|discriminate]. }
+  unfold rdf_listed. cbn [fx42 FIXED orb].
   destruct (m_get RDF (entries xm)) as [m|] eqn:G.
-  - (* listed: the entry has a non-empty type, the part exists *)
-    assert (Hm : (m =? EMPTYMT) = false).
-    { pose proof (m_get_In _ _ _ G) as Hi. unfold entries_typed in F. rewrite forallb_forall in F. specialize (F _ Hi). cbn [fst snd] in F.
-      apply andb_true_iff in F as [_ F]. rewrite Z.eqb_refl in F. cbn in F. destruct (m =? EMPTYMT); [discriminate|reflexivity]. }
-    rewrite Hm. cbn [negb].
-    destruct (memz RDF (c_listing bytes kid fs (cont _ _ d1))); cbn [fst]; [exact H1|].
+  - (* listed: the part exists *)
+    destruct (memz RDF (c_listing bytes kid FIXED fs (cont _ _ d1))); cbn [fst]; [exact H1|].
     destruct (c_set_part_sem bytes kid fs RDF rdf0 (cont _ _ d1) (wfd_c _ _ _ _ _ W1)) as [S1 _].
     apply Hsame.
     + intros k. rewrite S1. destruct (k =? RDF) eqn:E; [|reflexivity]. apply Z.eqb_eq in E. subst k.
       split; [discriminate|]. intros X. exfalso. apply (proj2 Hrdf (m_get_in _ _ _ G)). transitivity (dB fs d1 RDF); [symmetry; apply T2|exact X].
     + intros k Hk. rewrite S1. destruct (k =? RDF) eqn:E; [apply Z.eqb_eq in E; congruence|reflexivity].
   - (* not listed: the part does not exist; deleting it again changes nothing *)
-    destruct (memz RDF (c_listing bytes kid fs (cont _ _ d1))); cbn [fst]; [|exact H1].
+    destruct (memz RDF (c_listing bytes kid FIXED fs (cont _ _ d1))); cbn [fst]; [|exact H1].
     destruct (c_del_part_sem bytes kid fs RDF (cont _ _ d1) (wfd_c _ _ _ _ _ W1)) as [S1 _].
     assert (Hno : dB fs d RDF = None).
     { destruct (dB fs d RDF) eqn:Eb; [|reflexivity]. exfalso.
